@@ -647,11 +647,14 @@ pub fn fam_assume(seed: u64, tier: &str, index: u64) -> Scenario {
             assum.push(if g.rng.gen_bool(0.5) { p } else { p.negated() });
         }
         let br = g.random_brancher();
+        // now and then the assumption solve is interrupted (also before its first decision); the
+        // assumptions must not leak into the solves that follow
+        let stop_at = if g.rng.gen_bool(0.2) { Some(g.rng.gen_range(0..4)) } else { None };
         g.steps.push(Step::AssumeSolve {
             br,
             assum,
             core: g.rng.gen_bool(0.7),
-            stop_at: None,
+            stop_at,
         });
     }
     let br = g.random_brancher();
@@ -836,10 +839,11 @@ pub fn fam_reif(seed: u64, tier: &str, index: u64) -> Scenario {
     let kind = kinds[(index as usize) % kinds.len()];
     let c = g.cons_of_kind(kind);
     let r = if g.rng.gen_bool(0.5) { View::var(l) } else { View { v: l, s: -1, o: 1 } };
-    let mode = (index as usize / kinds.len()) % 3;
+    let mode = (index as usize / kinds.len()) % 4;
     let wrapped = match mode {
         1 if c.is_negatable() => Cons::Reif { r, c: Box::new(c) },
         2 if c.is_negatable() => Cons::Neg { c: Box::new(c) },
+        3 => c, // the plain constraint: every kind gets its share of unwrapped scenarios as well
         _ => Cons::Imp { r, c: Box::new(c) },
     };
     // status of the reification literal when posting
@@ -861,6 +865,16 @@ pub fn fam_reif(seed: u64, tier: &str, index: u64) -> Scenario {
     if g.rng.gen_bool(0.4) {
         let c2 = g.random_cons();
         g.post(c2, false);
+    }
+    // unary side clauses on the integer variables: bounds then move for reasons outside the
+    // constraint under test while the declared domains (over which entailment is judged) stay wide
+    if g.rng.gen_bool(0.6) {
+        for _ in 0..g.rng.gen_range(1..=2) {
+            let v = *g.int_vars().choose(&mut g.rng).unwrap();
+            let mut p = g.pred_on(View::var(v));
+            p.op = *[Op::Ge, Op::Le, Op::Ne].choose(&mut g.rng).unwrap();
+            g.post(Cons::Clause { ps: vec![p] }, false);
+        }
     }
     let br = match g.rng.gen_range(0..3) {
         0 => BrSpec { kind: "indep".into(), var: 2, val: g.rng.gen_range(0..NUM_VAL_SEL) }, // input order: r last
@@ -1077,6 +1091,82 @@ pub fn fam_exh_clause(_seed: u64, tier: &str, index: u64) -> Scenario {
     Scenario { fam: "exh_clause".into(), id: index, opts, steps: g.steps, engine: index % 7 == 0 }
 }
 
+pub const EXH_KINDS: [&str; 16] = [
+    "lin_le", "lin_eq", "lin_ne", "bin_le", "bin_ne", "plus", "times", "div", "abs", "max", "min",
+    "element", "alldiff", "cumulative", "bool_lin_le", "lit_clause",
+];
+pub const EXH_KIND_PREDS: u64 = 3 * 4 * 4;
+pub const EXH_KIND_TOTAL: u64 = 16 * 2 * EXH_KIND_PREDS * EXH_KIND_PREDS;
+
+/// `exh_kind`: exhaustive small scope for the explanation tap. One constraint of a fixed kind
+/// (two instances per kind: over plain variables and over views) on three variables with domain
+/// -2..3 (and two literals); EVERY ordered pair of predicates over those variables (4 operators x 4
+/// constants x 3 variables) is imposed as two consecutive decisions (through assumptions, which are
+/// decisions of consecutive levels), then the search is left to finish. Every propagation and
+/// conflict on the way goes through the C17 monitors. `index` enumerates the space.
+pub fn fam_exh_kind(_seed: u64, tier: &str, index: u64) -> Scenario {
+    let index = index % EXH_KIND_TOTAL;
+    let p2 = index % EXH_KIND_PREDS;
+    let p1 = (index / EXH_KIND_PREDS) % EXH_KIND_PREDS;
+    let inst = (index / (EXH_KIND_PREDS * EXH_KIND_PREDS)) % 2;
+    let kind = EXH_KINDS[((index / (2 * EXH_KIND_PREDS * EXH_KIND_PREDS)) % 16) as usize];
+    // the instance is a deterministic function of (kind, inst)
+    let mut g = Gen::new(rng_for(7, kind, inst), params(tier));
+    let x = g.add_int_var_with(vec![-2, -1, 0, 1, 2, 3], false);
+    let y = g.add_int_var_with(vec![-2, -1, 0, 1, 2, 3], inst == 1);
+    let z = g.add_int_var_with(if inst == 1 { vec![-2, 0, 1, 3] } else { vec![-1, 0, 1, 2] }, inst == 1);
+    let _ = g.add_lit();
+    let _ = g.add_lit();
+    let c = if inst == 0 {
+        // plain variables wherever the kind allows it
+        let (vx, vy, vz) = (View::var(x), View::var(y), View::var(z));
+        match kind {
+            "lin_le" => Cons::LinLe { terms: vec![vx, View { v: y, s: -2, o: 0 }, vz], rhs: 1 },
+            "lin_eq" => Cons::LinEq { terms: vec![vx, vy, View { v: z, s: -1, o: 0 }], rhs: 0 },
+            "lin_ne" => Cons::LinNe { terms: vec![vx, vy], rhs: 1 },
+            "bin_le" => Cons::BinLe { a: vx, b: vy },
+            "bin_ne" => Cons::BinNe { a: vx, b: vy },
+            "plus" => Cons::Plus { a: vx, b: vy, c: vz },
+            "times" => Cons::Times { a: vx, b: vy, c: vz },
+            "div" => Cons::Div { a: vx, b: View { v: z, s: 1, o: 2 }, c: vy },
+            "abs" => Cons::Abs { a: vx, b: vy },
+            "max" => Cons::Max { xs: vec![vx, vy], y: vz },
+            "min" => Cons::Min { xs: vec![vx, vy], y: vz },
+            "element" => Cons::Element { idx: View { v: z, s: 1, o: 0 }, xs: vec![vx, vy, const_view(1)], y: View::var(y) },
+            "alldiff" => Cons::Alldiff { xs: vec![vx, vy, vz] },
+            "cumulative" => Cons::Cumulative { s: vec![vx, vy, vz], d: vec![2, 1, 2], r: vec![1, 2, 1], cap: 2,
+                                               opts: CumOpts::all()[(index % 144) as usize] },
+            "bool_lin_le" => Cons::BoolLinLe { ws: vec![2, -1], bs: vec![View::var(5), View::var(6)], rhs: 0 },
+            _ => Cons::LitClause { ls: vec![View::var(5), View { v: 6, s: -1, o: 1 }] },
+        }
+    } else {
+        let c = g.cons_of_kind(kind);
+        // wrapped half of the time (deterministically per kind)
+        if kind.len() % 2 == 0 && !matches!(c, Cons::Clause { .. }) {
+            Cons::Imp { r: View::var(5), c: Box::new(c) }
+        } else {
+            c
+        }
+    };
+    g.post(c, false);
+    let ops = [Op::Ge, Op::Le, Op::Ne, Op::Eq];
+    let mk = |code: u64| -> Pred {
+        let v = [x, y, z][(code % 3) as usize];
+        let op = ops[((code / 3) % 4) as usize];
+        let k = [-1, 0, 1, 2][((code / 12) % 4) as usize];
+        Pred { x: View::var(v), op, k }
+    };
+    let assum = vec![mk(p1), mk(p2)];
+    let br = BrSpec { kind: "indep".into(), var: 2, val: (index % 14) as u8 };
+    g.steps.push(Step::AssumeSolve { br, assum, core: false, stop_at: None });
+    let opts = Opts { restart: "off".into(), ..Opts::default() };
+    Scenario { fam: "exh_kind".into(), id: index, opts, steps: g.steps, engine: true }
+}
+
+fn const_view(c: i32) -> View {
+    View { v: 1, s: c, o: 0 }
+}
+
 pub fn generate(fam: &str, seed: u64, tier: &str, index: u64) -> Scenario {
     match fam {
         "solve" => fam_solve(seed, tier, index),
@@ -1089,6 +1179,7 @@ pub fn generate(fam: &str, seed: u64, tier: &str, index: u64) -> Scenario {
         "configs" => fam_configs(seed, tier, index),
         "clauses" => fam_clauses(seed, tier, index),
         "exh_clause" => fam_exh_clause(seed, tier, index),
+        "exh_kind" => fam_exh_kind(seed, tier, index),
         "interrupt_base" => fam_interrupt_base(seed, tier, index),
         other => panic!("harness: unknown family {other}"),
     }
